@@ -157,7 +157,7 @@ class PureFockState(BaseFockState):
         index = get_index_in_fock_space(occupation_number)
 
         return self._np.real(
-            self.state_vector[index].conjugate() * self.state_vector[index]
+            self._np.conj(self.state_vector[index]) * self.state_vector[index]
         )
 
     def get_particle_detection_probability_on_modes(
